@@ -349,6 +349,15 @@ C05Why(e) ==
     ELSE IF e.a.fault # "none" \/ e.b.fault # "none" THEN "wild-pointer"
     ELSE IF SameValue(e.a.out, e.b.out, {}) /\ SameValue(e.b.out, e.a.out, {}) THEN "" ELSE "value differs"
 
+\* C04: untrusted bytes.  The harness observes crash / hang / allocation directly; the recogniser adds
+\* "a stream that is not a well-formed value must be reported through the decoder's error"
+FirstValueOK(toks) == ParseN(toks, St0, 1, <<>>).st.ok
+C04Why(e) ==
+    IF e.outcome \in {"panic", "crash", "timeout", "overalloc"} THEN e.outcome
+    ELSE IF e.judge /\ e.outcome = "ok" /\ ~FirstValueOK(e.toks)
+         THEN "malformed input accepted: " \o ParseN(e.toks, St0, 1, <<>>).st.why
+    ELSE ""
+
 C03Why(e) ==
     IF ~EncodedOK(e) THEN "encode"
     ELSE LET p == Parse(e.toks, e.nvals) IN
